@@ -32,6 +32,16 @@ def resName : IRes → String
   | .createContractSizeLimit => "CreateContractSizeLimit" | .createContractStartingWithEF => "CreateContractStartingWithEF"
   | .otherOk => "ok" | .otherRevert => "revert" | .otherHalt => "halt"
 
+/-- the outcome classes the property speaks about (the exact error kind is not compared) -/
+def resClass : IRes → String
+  | .stop | .ret | .returnContract | .otherOk => "ok"
+  | .callTooDeep => "toodeep"
+  | .outOfFunds | .overflowPayment => "valuefail"
+  | .precompileOOG | .precompileError => "precompilefail"
+  | .createCollision => "collision"
+  | .invalidExtDelegateCallTarget | .createInitCodeStartingEF00 | .invalidEOFInitCode => "rejected"
+  | _ => "other"
+
 def mkDb (deleg : Option Addr) : Db :=
   { basic := fun _ => none, storage := fun _ _ => 0, delegate := fun _ => deleg }
 
@@ -62,7 +72,7 @@ def kill (st : St) (msg : String) : St × String := ({ st with dead := true }, m
 /-- after a `make_*_frame`: push the frame or keep the stack; reply -/
 def afterMake (st : St) (d0 : Nat) (s : JState) (r : FrameOrResult) (mk : Checkpoint → Frame) : St × String :=
   match r with
-  | .result res => (fin st { js := s, stack := st.l.stack }, s!"res {resName res} d={d0}>{s.depth}")
+  | .result res => (fin st { js := s, stack := st.l.stack }, s!"res {resClass res} d={d0}>{s.depth}")
   | .frame cp => (fin { st with begins := d0 :: st.begins } { js := s, stack := mk cp :: st.l.stack }, s!"frame d={d0}>{s.depth}")
   | .fatal => kill st "fatal"
 
@@ -160,13 +170,10 @@ def handle (st : St) (toks : List String) : St × String :=
           | .call cp => (callReturn st.l.js cp ok).map fun s => (s, "c", if ok then "ok" else "fail")
           | .create cp a =>
             (createReturn st.l.js st.spec cp a { resultOk := ok, firstByteEF := ef, lenOverMax := over, depositOk := dep, codeHash := ch }).map
-              fun (s, r) => (s, "k", match r with
-                | .ret => "ret" | .createContractStartingWithEF => "ef" | .createContractSizeLimit => "size"
-                | .outOfGas => "oog" | _ => "fail")
+              fun (s, r) => (s, "k", if r.isOk then "ok" else "fail")
           | .eofcreate cp a =>
             (eofcreateReturn st.l.js cp a { isReturnContract := rc, lenOverMax := over, depositOk := dep, decodes := true, codeHash := ch }).map
-              fun (s, r) => (s, "e", match r with
-                | .returnContract => "retc" | .createContractSizeLimit => "size" | .outOfGas => "oog" | _ => "fail")
+              fun (s, r) => (s, "e", if r.isOk then "ok" else "fail")
         match out with
         | none => kill st "panic"
         | some (s, k, cls) =>
